@@ -234,13 +234,15 @@ impl Linker {
         // Write the dependency file and inputs trace after successful linking.
         if result.is_ok() {
             if let Some(dep_file_path) = &args.dependency_file() {
-                write_dependency_file(dep_file_path, args.output(), &file_loader.loaded_files)
-                    .with_context(|| {
+                let files_read = file_loader.files_read().collect::<Vec<_>>();
+                write_dependency_file(dep_file_path, args.output(), &files_read).with_context(
+                    || {
                         format!(
                             "Failed to write dependency file `{}`",
                             dep_file_path.display()
                         )
-                    })?;
+                    },
+                )?;
             }
             if args.should_write_trace_file() {
                 let mut buf = BufWriter::new(std::io::stdout());
@@ -277,7 +279,7 @@ impl Linker {
 
         let mut layout_rules_builder = LayoutRulesBuilder::default();
 
-        let auxiliary = input_data::AuxiliaryFiles::new(args, &self.inputs_arena)?;
+        let auxiliary = input_data::AuxiliaryFiles::new(args, file_loader)?;
 
         let mut symbol_db = symbol_db::SymbolDb::new(args, output_kind, &auxiliary, &self.herd)?;
         let mut per_symbol_flags = PerSymbolFlags::new();
